@@ -6,7 +6,7 @@
 //!
 //! Line protocol (inputs only + eviction choice witness `e:`; see lean/SafeNet/Driver/BootCache.lean):
 //!   cfg P A E N | mk s mode | tick d | add s ma e | upd s ma b | clean s e | flush s b e | write s | load e |
-//!   lupd ma b e | file cache | corrupt k | craft ma | race seed writers iters
+//!   lupd ma b e | start flags count args env o e h | file cache | corrupt k | craft ma | race seed writers iters
 //! Outputs: `m=<cache> n=<peers>` (store memory), `f=<cache>|absent|garbage` (raw file, parsed by this
 //! harness's own JSON reader), `ok <cache>`/`err` (load_cache_data), `some <ma>`/`none`, `race ok`.
 use ant_bootstrap::{craft_valid_multiaddr, BootstrapCacheConfig, BootstrapCacheStore, PeersArgs};
@@ -357,6 +357,42 @@ fn fnv64(text: &str) -> u64 {
     }
     h
 }
+/// run a future that never has to wait (the network sources of get_bootstrap_addr are switched off)
+fn block_on<F: std::future::Future>(f: F) -> Option<F::Output> {
+    let mut f = std::pin::pin!(f);
+    let w = std::task::Waker::noop();
+    let mut cx = std::task::Context::from_waker(w);
+    for _ in 0..16 {
+        if let std::task::Poll::Ready(v) = f.as_mut().poll(&mut cx) {
+            return Some(v);
+        }
+    }
+    None
+}
+
+/// `PeersArgs::get_bootstrap_addr` with ANT_PEERS set/unset around the call (single-threaded here), rendered canonically
+fn call_startup(args: &PeersArgs, config: &BootstrapCacheConfig, count: Option<usize>, env: &Option<String>) -> (String, Vec<A>) {
+    match env {
+        Some(v) => std::env::set_var(ant_bootstrap::ANT_PEERS_ENV, v),
+        None => std::env::remove_var(ant_bootstrap::ANT_PEERS_ENV),
+    }
+    let r = catch_unwind(AssertUnwindSafe(|| block_on(args.get_bootstrap_addr(Some(config.clone()), count))));
+    std::env::remove_var(ant_bootstrap::ANT_PEERS_ENV);
+    match r {
+        Err(_) => ("panic".into(), vec![]),
+        Ok(None) => ("err pending".into(), vec![]),
+        Ok(Some(Ok(l))) => {
+            let v: Vec<A> = l.iter().map(|a| A { ma: ma_to_tok(&a.addr), succ: a.success_count as u64, fail: a.failure_count as u64, seen: from_system_time(a.last_seen) }).collect();
+            let mut xs: Vec<String> = v.iter().map(|a| format!("{};{};{};{}", a.ma, a.succ, a.fail, a.seen)).collect();
+            xs.sort();
+            (if xs.is_empty() { "ok -".into() } else { format!("ok {}", xs.join("+")) }, v)
+        }
+        Ok(Some(Err(ant_bootstrap::Error::NoBootstrapPeersFound))) => ("err nopeers".into(), vec![]),
+        Ok(Some(Err(ant_bootstrap::Error::FailedToParseCacheData))) | Ok(Some(Err(ant_bootstrap::Error::Io(_)))) => ("err cache".into(), vec![]),
+        Ok(Some(Err(e))) => (format!("err other:{e:?}").replace(' ', "_"), vec![]),
+    }
+}
+
 fn keyset(c: &Cache) -> BTreeSet<u64> {
     c.keys().cloned().collect()
 }
@@ -439,7 +475,7 @@ fn is_clean(c: &Cache, case: &Case) -> bool {
 // executing one op line on the real code (returns the full op line incl. witness, and the output)
 // ---------------------------------------------------------------------------------------------
 fn strip_choice(ws: &[&str]) -> Vec<String> {
-    ws.iter().filter(|w| !w.starts_with("e:") && !w.starts_with("h:")).map(|s| s.to_string()).collect()
+    ws.iter().filter(|w| !w.starts_with("e:") && !w.starts_with("h:") && !w.starts_with("o:")).map(|s| s.to_string()).collect()
 }
 
 static RACE_FAILS: AtomicU64 = AtomicU64::new(0);
@@ -861,6 +897,57 @@ fn exec(case: &mut Case, dir: &PathBuf, line: &str, out: &mut Out) -> (String, S
                     }
                 }
             }
+            ["start", fl, cnt, as_, ev] => {
+                // the start-up path: PeersArgs::get_bootstrap_addr over the shared cache file in whatever state it is
+                let has = |c: char| fl.contains(c);
+                let addrs: Vec<Multiaddr> = if *as_ == "-" { vec![] } else { as_.split('+').map(|t| ma_from_tok(t).expect("ma")).collect() };
+                let env: Option<String> = if *ev == "-" { None } else { Some(ev.split('+').map(|t| ma_from_tok(t).expect("ma").to_string()).collect::<Vec<_>>().join(",")) };
+                let count: Option<usize> = if *cnt == "-" { None } else { Some(cnt.parse().unwrap()) };
+                let n_args = addrs.iter().filter(|a| craft_valid_multiaddr(a, false).is_some()).count();
+                let args = PeersArgs {
+                    first: has('f'),
+                    addrs,
+                    network_contacts_url: vec![],
+                    local: has('l'),
+                    disable_mainnet_contacts: true,
+                    ignore_cache: has('i'),
+                    bootstrap_cache_dir: if has('d') { Some(case.dir.clone()) } else { None },
+                };
+                let config = if has('d') { case.cfg().with_cache_path(&case.decoy) } else { case.cfg() };
+                let raw = read_raw(&case.path);
+                let (outl, res) = call_startup(&args, &config, count, &env);
+                // the same call with the cache file out of the way
+                let hidden = case.dir.join("hidden-cache-file");
+                let moved = std::fs::rename(&case.path, &hidden).is_ok();
+                let (out0, _) = call_startup(&args, &config, count, &env);
+                if moved {
+                    std::fs::rename(&hidden, &case.path).expect("put the cache file back");
+                }
+                // witnesses: which cache peers the result shows, in the implementation's order
+                let mut ord: Vec<u64> = vec![];
+                if let RawFile::Data(rc) = &raw {
+                    for a in res.iter().skip(n_args) {
+                        if let Some((k, _)) = rc.iter().find(|(k, l)| !ord.contains(k) && l.contains(a)) {
+                            ord.push(*k);
+                        }
+                    }
+                }
+                let ev_set: BTreeSet<u64> = raw.peers().into_iter().filter(|p| !ord.contains(p)).collect();
+                let o = if ord.is_empty() { "o:-".to_string() } else { format!("o:{}", ord.iter().map(|x| x.to_string()).collect::<Vec<_>>().join(",")) };
+                full = format!("{full} {o} {} h:{}", show_choice(&ev_set), fnv64(&outl));
+                let unparsable = !matches!(raw, RawFile::Data(_));
+                out.count(&format!("start:{}:{}", match raw { RawFile::Absent => "no-file", RawFile::Garbage => "corrupt-file", RawFile::Data(_) => "cache-file" }, outl.split(' ').take(2).collect::<Vec<_>>().join("-").chars().take(10).collect::<String>()));
+                let (o1, o0) = (outl.clone(), out0);
+                orc_jobs.push(Box::new(move |o, _| {
+                    if o0.starts_with("ok") && !o1.starts_with("ok") {
+                        o.fail("startup-ignores-cache", format!("get_bootstrap_addr gives `{o1}` although the same call with no cache file gives `{o0}`"));
+                    }
+                    if unparsable && o1 != o0 {
+                        o.fail("startup-ignores-cache", format!("over a missing or unparsable cache file get_bootstrap_addr gives `{o1}`, with no cache file `{o0}`"));
+                    }
+                }));
+                outl
+            }
             ["file", c] => {
                 let c = parse_cache(c).expect("cache syntax");
                 let wf = c.iter().all(|(p, l)| l.iter().all(|a| dialable_with_peer(&a.ma) == Some(*p)) && {
@@ -1149,7 +1236,10 @@ fn gen_case(rng: &mut Rng, case: &mut Case, dir: &PathBuf, out: &mut Out, budget
         let f = gen_file(rng, case, peers, true, true);
         run(case, format!("file {f}"), out, budget);
         for _ in 0..3 {
-            if rng.chance(1, 2) {
+            if rng.chance(1, 4) {
+                // start-up over a file with eviction ties, result cut to `count`
+                run(case, format!("start - {} - -", *rng.pick(&["-", "1", "2"])), out, budget);
+            } else if rng.chance(1, 2) {
                 run(case, "load".into(), out, budget);
             } else {
                 run(case, format!("lupd {} {}", { let q = rng.below(peers); canonical_ma(rng, q) }, rng.below(2)), out, budget);
@@ -1199,7 +1289,7 @@ fn gen_case(rng: &mut Rng, case: &mut Case, dir: &PathBuf, out: &mut Out, budget
                 run(case, format!("write {s}"), out, budget);
                 last_write_corrupt = false;
             }
-            76..=81 => run(case, "load".into(), out, budget),
+            79..=81 => run(case, "load".into(), out, budget),
             82..=85 => {
                 let wf = rng.chance(4, 5);
                 let f = gen_file(rng, case, peers, wf, false);
@@ -1212,6 +1302,15 @@ fn gen_case(rng: &mut Rng, case: &mut Case, dir: &PathBuf, out: &mut Out, budget
             }
             90..=92 => run(case, format!("lupd {} {}", { let q = rng.below(peers); canonical_ma(rng, q) }, rng.below(2)), out, budget),
             93..=95 => run(case, format!("tick {}", 2 * *rng.pick(&[1u64, e / 2, e / 2 + 1, e])), out, budget),
+            76..=78 => {
+                let fl = *rng.pick(&["-", "-", "-", "-", "d", "d", "i", "f", "l", "di", "fl"]);
+                let cnt = *rng.pick(&["-", "-", "-", "0", "1", "2", "5"]);
+                let na = *rng.pick(&[0u64, 0, 1, 1, 2]);
+                let args: Vec<String> = (0..na).map(|_| gen_ma(rng, peers)).collect();
+                let env: Vec<String> = if rng.chance(1, 6) { (0..rng.range(1, 2)).map(|_| gen_ma(rng, peers)).collect() } else { vec![] };
+                let j = |v: &Vec<String>| if v.is_empty() { "-".to_string() } else { v.join("+") };
+                run(case, format!("start {fl} {cnt} {} {}", j(&args), j(&env)), out, budget);
+            }
             96 => {
                 let mode = *rng.pick(&["d", "df", "dl", "c", "n", "di"]);
                 run(case, format!("mk {s} {mode}"), out, budget);
@@ -1234,7 +1333,8 @@ fn main() {
         eprintln!("virtual clock not in effect (SystemTime::now gives model time {t})");
         std::process::exit(3);
     }
-    let dir = args.out.join("bc-tmp");
+    // process-unique scratch dir: checks of the same property may run concurrently with the same --out
+    let dir = std::env::temp_dir().join(format!("verif-c18-bootcache-{}", std::process::id()));
     let _ = std::fs::remove_dir_all(&dir);
     std::fs::create_dir_all(&dir).expect("tmp dir");
     let mut case = Case {
@@ -1279,6 +1379,11 @@ fn main() {
             // merge AND write (seeded change m2 wrote to the stale path); `first` clears the file; `local` disables flushes
             "cfg 3 3 100 3", "mk 0 d", "tick 2", "add 0 i4:1,u:1,q,p:1", "flush 0 1", "load", "tick 2", "add 1 i4:1,u:1,q,p:2", "flush 1 0", "load",
             "mk 2 dl", "tick 2", "add 2 i4:1,u:1,q,p:3", "flush 2 1", "write 2", "load", "mk 1 df", "load", "mk 0 c", "tick 2", "add 0 i4:0,t:1,p:4", "flush 0 0", "load",
+            // start-up (PeersArgs::get_bootstrap_addr) over a valid, an empty, a foreign and a missing cache file
+            // (seeded change r3m1 returned the parse error to the caller)
+            "cfg 3 3 100 1", "tick 2", "add 0 i4:1,u:1,q,p:1", "flush 0 1", "start - - i4:1,u:1,q,p:7 -", "start d 1 - -",
+            "corrupt 0", "start - - i4:1,u:1,q,p:7 -", "start d - i4:1,u:1,q,p:7 -", "corrupt 3", "start - 5 i4:1,u:1,q,p:7 -", "start - - - -",
+            "start i - - -", "start - - - i4:1,u:1,q,p:8", "start f - - -", "start l - i4:1,u:1,q,p:7 -", "corrupt 5", "start - - i4:1,u:1,q,p:7 -",
             "cfg 50 6 86400 3", "race 1 3 40",
         ];
         let mut budget = args.n as i64;
